@@ -234,8 +234,14 @@ def run_history(spec):
     use_file = mk.pop('file', False) or any(st[0] == 'resume' for st in spec['script'])
     tmp = common.scratch_dir('nvcore') if use_file else None
     ck = os.path.join(tmp, 'ck.h5') if use_file else None
+    acc = {}
     try:
-        return _run_history(spec, mk, prior_kind, ck, t0)
+        return _run_history(spec, mk, prior_kind, ck, t0, acc)
+    except Exception as e:
+        # the sampler raised: keep what the observables had already found at the boundaries before (e.g. a corrupt state right after a resume)
+        import traceback
+        return {'spec': spec, 'crash': '%s: %s' % (type(e).__name__, str(e)[:200]), 'trace': traceback.format_exc()[-1500:],
+                'partial_fails': acc.get('fails') or {}}
     finally:
         if tmp:
             import shutil
@@ -260,11 +266,13 @@ def _make(mk, prior_kind, ck, resume):
     return runs.make_sampler(**kw)
 
 
-def _run_history(spec, mk, prior_kind, ck, t0):
+def _run_history(spec, mk, prior_kind, ck, t0, acc=None):
     s, lk = _make(mk, prior_kind, ck, False)
     replay = prior_kind is None
     rec = corerec.Recorder(s, lk) if replay else None
     fails = {p: [] for p in ('C01', 'C02', 'C03', 'C10', 'C12')}
+    if acc is not None:
+        acc['fails'] = fails
     stats = {'boundaries': 0, 'boundaries_with_transfers': 0, 'max_shells': 0, 'neg_inf_samples': 0, 'returns': [],
              'shells_removed_at_end_of_exploration': 0, 'resumes': 0}
     state = {'prev': None, 'iter_evals': [], 'req': None}
@@ -281,9 +289,34 @@ def _run_history(spec, mk, prior_kind, ck, t0):
             try:
                 for key, what, d in fn_():
                     fails[pid_].append((key, what, dict(d, **ctx)))
+                    if pid_ == 'C02' and s.explored and s._discard_exploration:
+                        # "turning it on shows exactly the samples drawn after exploration ended": in the discard view a statistic that
+                        # is not the estimator of the visible samples is a statistic that depends on something else
+                        fails['C12'].append(('discard-view-statistic:' + key, 'with discard_exploration on, ' + what, dict(d, **ctx)))
             except Exception as e:      # an accessor of the real sampler raised on a reachable state
                 fails[pid_].append(('observable-raises:' + type(e).__name__, 'evaluating the observables of %s raised %s: %s' % (
                     pid_, type(e).__name__, str(e)[:120]), ctx))
+        if rec is not None and cur_s['s'] is rec.s and len(s.shell_n_sample) == len(s.bounds):
+            # independent count of the proposals: rows returned by bounds[i].sample() to sample_shell
+            for i, b in enumerate(s.bounds):
+                want = rec.drawn.get(id(b), 0)
+                if int(s.shell_n_sample[i]) != want:
+                    fails['C02'].append(('proposals-miscounted', 'shell %d: shell_n_sample=%d but its bound returned %d proposals to sample_shell' % (
+                        i, int(s.shell_n_sample[i]), want), dict(ctx, shell=i)))
+                    break
+        if s.explored and s._discard_exploration and len(s.shell_end_exp) == len(s.log_l) and \
+                sum(len(s.log_l[i]) - int(s.shell_end_exp[i]) for i in range(len(s.log_l))) > 0:
+            # the discard view shows exactly the samples stored behind the exploration split points
+            try:
+                post = s.posterior(return_blobs=False)
+                got = sorted(np.ascontiguousarray(r, dtype=float).tobytes() for r in np.atleast_2d(post[0]))
+                want = sorted(np.ascontiguousarray(r, dtype=float).tobytes() for i in range(len(s.points)) for r in s.points[i][int(s.shell_end_exp[i]):])
+                if prior_kind is None and got != want:
+                    fails['C12'].append(('discard-view-shows-other-samples', 'with discard_exploration on, posterior() returns %d rows; the samples drawn after '
+                                         'exploration ended are %d (different multiset)' % (len(got), len(want)), ctx))
+            except Exception as e:
+                fails['C12'].append(('discard-view-posterior-raises:' + type(e).__name__, 'with discard_exploration on, posterior() raised %s: %s' % (
+                    type(e).__name__, str(e)[:100]), ctx))
         prev = state['prev']
         if prev is not None and not prev['explored'] and s.explored:
             stats['shells_removed_at_end_of_exploration'] = prev['n_bounds'] - len(s.bounds)
@@ -497,10 +530,16 @@ def histories(tier, seed):
         kind='gauss', n_live=60, n_batch=20, n_update=30)
     add([('run', dict(n_eff=200, n_like_max=330)), ('resume',), ('run', dict(n_eff=200, n_like_max=660)), ('resume',),
          ('run', dict(n_eff=200))], kind='bimodal', n_live=80, n_batch=30, blob='two')
+    # a resume after every third batch of the exploration phase (checkpoints written by the incremental update right after batches with transfers)
+    add([x for m in range(120, 900, 60) for x in (('run', dict(n_eff=200, n_like_max=m)), ('resume',))] + [('run', dict(n_eff=200))],
+        kind='gauss', n_live=60, n_batch=20, n_update=30, blob='two')
     # geometry hugging the faces of the cube
     add([('run', dict(n_eff=300))], kind='ridge_edge', n_live=200, n_batch=50, blob=None)
     add([('run', dict(n_eff=300))], kind='ridge_edge', n_live=200, n_batch=50, blob=None, seed=seed + 2)
     add([('run', dict(n_eff=300))], kind='corner', n_live=100, n_batch=50, n_dim=3)
+    # bounds sampled through a sampler pool (8 / 4 workers: several worker blocks are consumed), also with a periodic parameter
+    add([('run', dict(n_eff=500, n_shell=900))], kind='gauss', n_live=100, n_batch=100, spool=16, blob=None)
+    add([('run', dict(n_eff=300)), ('toggle2',)], kind='wrap', periodic=[0], n_live=100, n_batch=40, spool=4, blob=None)
     # a prior function that overwrites its argument
     add([('run', dict(n_eff=200)), ('toggle2',)], prior_kind='inplace', n_live=80, n_batch=20, blob='serial')
     add([('run', dict(n_eff=100))], prior_kind='inplace', n_live=50, n_batch=1, blob=None)
@@ -623,6 +662,8 @@ def report(chk, pid, results, inv_names):
                          {'input': spec, 'trace': r['trace']})
             else:
                 chk.notes.append('history skipped (the sampler raised; reported by %s): %s' % ('/'.join(crash_properties(r.get('trace', ''))), r['crash'][:100]))
+            for key, what, d in (r.get('partial_fails') or {}).get(pid, []):
+                chk.fail(key, what, {'input': spec, 'detail': d})
             continue
         total_ops += r.get('n_ops', len(r.get('ops', [])))
         nontriv += r['stats']['boundaries_with_transfers']
